@@ -11,7 +11,7 @@ PROP = dict(
                     "order, names, values and parent/prev links are compared.  Exploration, not proof."),
         level_note=("trusts the renderer in harness/c09_readback.c, i.e. its reading of the doc comments of mpt_parse_format_pre/_enc/_sep, "
                     "mpt_parse_format and of examples/core/*.txt, *.lay, mpt.conf; gcc ASan/UBSan"),
-        legs=[dict(name="c09_readback", src=["c09_readback.c"], libs=["mptcore"], batch=512,
+        legs=[dict(name="c09_readback", memcheck=600, src=["c09_readback.c"], libs=["mptcore"], batch=512,
                    floors={"mpt_parse_node": 450000, "style:prefix": 70000, "style:enclosed": 35000, "style:separated": 35000,
                            "monitor:trees-equal:canonical": 150000, "monitor:trees-equal:compact": 150000,
                            "monitor:trees-equal:noisy": 150000, "monitor:values-compared": 2000000,
